@@ -113,18 +113,26 @@ fn child() {
                 let tgt = step["c"]["tgt"].as_str().unwrap().to_string();
                 let k = step["k"].as_str().unwrap_or("event").to_string();
                 drain(&log);
+                let how = step["how"].as_str().unwrap_or("future").to_string();
                 let r = ws.run(t, move |_| {
                     use std::future::Future;
                     use tracing::instrument::WithCollector;
-                    let fut = async move {
+                    let body = move || {
                         if k == "span" {
                             !emit_span(lvl, &tgt).is_disabled()
                         } else {
                             emit_event(lvl, &tgt);
                             true
                         }
+                    };
+                    // the same scope opened by dispatch::with_default, or by tracing's own re-export of it
+                    if how == "with_default" {
+                        return json!(dispatch::with_default(&d, body));
                     }
-                    .with_collector(d);
+                    if how == "tracing_with_default" {
+                        return json!(tracing::dispatch::with_default(&d, body));
+                    }
+                    let fut = async move { body() }.with_collector(d);
                     let mut fut = Box::pin(fut);
                     let w = vh_common::noop_waker();
                     let mut cx = std::task::Context::from_waker(&w);
